@@ -32,6 +32,12 @@ Record vfit (A : Type) := {
 Arguments vuse_mask {A} _. Arguments vdata {A} _. Arguments vnoise {A} _. Arguments vmodel {A} _.
 Arguments vinversion {A} _.
 
+(* the two preloaded quantities the anchored inversion terms look at *)
+Record pre (A : Type) := {
+  pre_H : option (list (list A));     (* preloads.regularization_matrix *)
+  pre_ldr : option A }.               (* preloads.log_det_regularization_matrix_term *)
+Arguments pre_H {A} _. Arguments pre_ldr {A} _.
+
 (* ================================================================== (a) the model *)
 Section ModelX.
   Context {O : NumOps}.
@@ -98,6 +104,25 @@ Section ModelX.
   Definition cfit_log_evidence f Ci := evidence_from (cfit_chi_squared f Ci) (fit_noise_normalization tp f) (inversion f).
   Definition cfit_figure_of_merit f Ci := fom_from (cfit_chi_squared f Ci) (fit_noise_normalization tp f) (inversion f).
 
+  (* ---- preloads (inversion/abstract.py): a preloaded regularization matrix replaces the block-diagonal assembly
+          wherever H is used; a preloaded log-determinant replaces ln det of the reduced H (after the
+          has-regularization test) *)
+  Definition p_regularization_matrix (p : pre (T O)) (iv : inv (T O)) : list (list (T O)) :=
+    match pre_H p with Some H => H | None => regularization_matrix iv end.
+  Definition p_curvature_reg_matrix (p : pre (T O)) (iv : inv (T O)) : list (list (T O)) :=
+    if negb (has_reg (objs iv)) then curv iv
+    else map2 (map2 (add O)) (curv iv) (p_regularization_matrix p iv).
+  Definition p_regularization_matrix_reduced p iv := reduce_matrix (objs iv) (p_regularization_matrix p iv).
+  Definition p_curvature_reg_matrix_reduced p iv := reduce_matrix (objs iv) (p_curvature_reg_matrix p iv).
+  Definition p_regularization_term (p : pre (T O)) (iv : inv (T O)) : T O :=
+    if negb (has_reg (objs iv)) then zero
+    else dotT (reconstruction_reduced iv) (matvec (p_regularization_matrix_reduced p iv) (reconstruction_reduced iv)).
+  Definition p_log_det_curvature_reg_matrix_term (p : pre (T O)) (iv : inv (T O)) : T O :=
+    if negb (has_reg (objs iv)) then zero else logdet (p_curvature_reg_matrix_reduced p iv).
+  Definition p_log_det_regularization_matrix_term (p : pre (T O)) (iv : inv (T O)) : T O :=
+    if negb (has_reg (objs iv)) then zero
+    else match pre_ldr p with Some v => v | None => logdet (p_regularization_matrix_reduced p iv) end.
+
   (* ---- complex variants of fit_util.py *)
   Definition cx : Type := (T O * T O)%type.
   Definition czero : cx := (zero, zero).
@@ -157,6 +182,13 @@ Section SpecX.
     else s_ll_of chi nn.
   Definition s_fom_of (chi nn : T O) (ivo : option (inv (T O))) : T O :=
     match ivo with Some iv => s_evidence_of chi nn iv | None => s_ll_of chi nn end.
+
+  (* with preloads: the entries of the regularization matrix in force *)
+  Definition s_H_eff (p : pre (T O)) (iv : inv (T O)) (i j : nat) : T O :=
+    match pre_H p with Some H => mat_at H i j | None => s_H iv i j end.
+  Definition s_FH_eff (p : pre (T O)) (iv : inv (T O)) (i j : nat) : T O := add O (mat_at (curv iv) i j) (s_H_eff p iv i j).
+  Definition pre_okb (p : pre (T O)) (iv : inv (T O)) : bool :=
+    match pre_H p with Some H => squareb (n_params (objs iv)) H | None => true end.
 
   (* r^T M r as a double sum *)
   Definition s_quadratic_form (r : list (T O)) (M : list (list (T O))) : T O :=
@@ -228,6 +260,8 @@ Inductive case :=
 | KCov (tbl : list (Q * Q)) (tp : Q) (f : fit Q) (C : list (list Q)) (out : covout)
 (* fit_util.chi_squared_with_noise_covariance_from on ndarrays *)
 | KUtilCov (r : list Q) (Ci : list (list Q)) (chi : Q)
+(* the inversion terms with a Preloads object carrying (any) regularization matrix / log-determinant *)
+| KInvP (tbl : list (Q * Q)) (p : pre Q) (iv : inv Q) (out : invout)
 (* FitInterferometer *)
 | KVis (tbl : list (Q * Q)) (tp : Q) (v : vfit Q) (out : visout)
 (* the complex fit_util functions on ndarrays *)
@@ -267,6 +301,17 @@ Definition agreex (k : case) : bool :=
   | KUtilX r d mk xrff xrffw =>
       list_eqb (xq rclose) (@residual_flux_fraction_map_from_x QOps r d) xrff &&
       list_eqb (xq rclose) (@residual_flux_fraction_map_with_mask_from_x QOps r d mk) xrffw
+  | KInvP tbl p iv o =>
+      let O := QL tbl in
+      list_eqb Nat.eqb (@no_regularization_index_list (objs iv)) (o_noreg o) &&
+      mq exact (@p_regularization_matrix O p iv) (o_H o) &&
+      mq exact (@p_curvature_reg_matrix O p iv) (o_FH o) &&
+      mq exact (@p_regularization_matrix_reduced O p iv) (o_Hred o) &&
+      mq exact (@p_curvature_reg_matrix_reduced O p iv) (o_FHred o) &&
+      lq exact (@reconstruction_reduced O iv) (o_sred o) &&
+      exact (@p_regularization_term O p iv) (o_regterm o) &&
+      close (@p_log_det_curvature_reg_matrix_term O p iv) (o_ldc o) &&
+      close (@p_log_det_regularization_matrix_term O p iv) (o_ldr o)
   | KCov tbl tp f C o => agree_cov tbl tp f o
   | KUtilCov r Ci chi => rclose (@chi_squared_with_noise_covariance_from QOps r Ci) chi
   | KVis tbl tp v o => agree_vis tbl tp v o
@@ -353,6 +398,19 @@ Definition spec_okx (k : case) : bool :=
       (Nat.eqb (length d) len && Nat.eqb (length mk) len) &&
       xmap_ok len (fun i => @s_quot_x QOps (nth i r 0) (nth i d 0)) rclose xrff &&
       xmap_ok len (fun i => if nth i mk true then XFin 0 else @s_quot_x QOps (nth i r 0) (nth i d 0)) rclose xrffw
+  | KInvP tbl p iv o =>
+      let O := QL tbl in
+      let R := reg_indices (objs iv) in
+      (@inv_okb O iv && @pre_okb O p iv) &&
+      (mq exact (@tabulate O (@s_H_eff O p iv) R) (o_Hred o) &&
+       mq exact (@tabulate O (@s_FH_eff O p iv) R) (o_FHred o) &&
+       lq exact (map (@at_ O (recon iv)) R) (o_sred o) &&
+       exact (@sumT O (map (fun i => @sumT O (map (fun j => @at_ O (recon iv) i * @s_H_eff O p iv i j * @at_ O (recon iv) j) R)) R))
+             (o_regterm o) &&
+       (if has_reg (objs iv)
+        then close (lnT O (@det O (@tabulate O (@s_FH_eff O p iv) R))) (o_ldc o) &&
+             close (match pre_ldr p with Some v => v | None => lnT O (@det O (@tabulate O (@s_H_eff O p iv) R)) end) (o_ldr o)
+        else exact 0 (o_ldc o) && exact 0 (o_ldr o)))
   | KCov tbl tp f C o => spec_cov tbl tp f C o
   | KUtilCov r Ci chi => squareb (length r) Ci && rclose (@s_quadratic_form QOps r Ci) chi
   | KVis tbl tp v o => spec_vis tbl tp v o
